@@ -56,7 +56,40 @@ var (
 	uTh   = []uint64{1, 2, 3}
 	uPre  = []uint64{1, 2}
 	uVal  = []uint64{1, 2, 3, 4}
+	uDlg  = []uint64{501, 502, 503} // delegator accounts of the implementation-only histories
 )
+
+// richAddrs: the accounts the oracle looks at
+func richAddrs() []uint64 { return append(append([]uint64{}, uAddr...), uDlg...) }
+
+// delegationView: what an account's delegation list looks like from outside
+func (e *env) delegationView(n uint64) string {
+	st, a := e.st, addrOf(n)
+	if !st.Exist(a) {
+		return "absent"
+	}
+	db, dl, ok := st.VerifC09Delegations(a)
+	s := fmt.Sprintf("dlg=%v/%s/%x cnt=%d", ok, db, dl, st.GetCountOfDelegateTo(a))
+	func() {
+		defer func() {
+			if r := recover(); r != nil {
+				s += fmt.Sprint(" GetDelegationsFrom panics: ", r)
+			}
+		}()
+		tos, err := st.GetDelegationsFrom(a)
+		if err != nil {
+			s += " from=error"
+			return
+		}
+		for _, t := range tos {
+			s += fmt.Sprintf(" to=%x/%s/%s", t.Validator, t.Stake, t.Token)
+		}
+	}()
+	if ok, d := st.VerifC09DelegationsConsistent(a); !ok {
+		s += " INCONSISTENT " + d
+	}
+	return s
+}
 
 func addrOf(n uint64) common.Address { return common.BigToAddress(new(big.Int).SetUint64(n)) }
 func hashOf(n uint64) common.Hash    { return common.BigToHash(new(big.Int).SetUint64(n)) }
@@ -196,6 +229,16 @@ func (e *env) exec(o Op) (ret int64, panicked bool, panicMsg string) {
 	case "rmwd":
 		if st.RemoveWithdrawRecords(append([]int{}, o.Idx...)) {
 			ret = 1
+		}
+	case "updvalinplace": // implementation-only: the caller pattern of rewardsToPool (mutate the live record, journal a copy)
+		v := st.GetValidatorByMainAddr(valAddr(o.A))
+		if v != nil {
+			old := v.PartialCopy()
+			v.AddTotalRewards(new(big.Int).SetUint64(o.B))
+			v.UpdateLastActive(o.C)
+			if st.UpdateValidator(v, old) {
+				ret = 1
+			}
 		}
 	case "upddelegation": // implementation-only (the value model cannot express the shared slice)
 		v := st.GetValidatorByMainAddr(valAddr(o.A))
@@ -414,12 +457,11 @@ type rich struct {
 func (e *env) rich() rich {
 	st := e.st
 	var r rich
-	for _, n := range uAddr {
+	for _, n := range richAddrs() {
 		a := addrOf(n)
 		s := fmt.Sprintf("exist=%v empty=%v bal=%s nonce=%d code=%x codehash=%x codesize=%d suicided=%v", st.Exist(a), st.Empty(a), st.GetBalance(a), st.GetNonce(a),
 			st.GetCode(a), st.GetCodeHash(a), st.GetCodeSize(a), st.HasSuicided(a))
-		db, dl, ok := st.VerifC09Delegations(a)
-		s += fmt.Sprintf(" dlg=%v/%s/%x cnt=%d", ok, db, dl, st.GetCountOfDelegateTo(a))
+		s += " " + e.delegationView(n)
 		for _, k := range uKey {
 			s += fmt.Sprintf(" %d:%x/%x", k, st.GetState(a, hashOf(k)), st.GetCommittedState(a, hashOf(k)))
 		}
@@ -516,7 +558,7 @@ func (a rich) diff(b rich) []diffItem {
 	add := func(tag, text string) { d = append(d, diffItem{tag, text}) }
 	for i := range a.Accounts {
 		if a.Accounts[i] != b.Accounts[i] {
-			add("acct", fmt.Sprintf("account %d: %s  ->  %s", uAddr[i], a.Accounts[i], b.Accounts[i]))
+			add("acct", fmt.Sprintf("account %d: %s  ->  %s", richAddrs()[i], a.Accounts[i], b.Accounts[i]))
 		}
 	}
 	if a.Misc != b.Misc {
@@ -707,6 +749,9 @@ func (o *oracle) step(e *env, h []Op, i int, op Op, ret int64, panicked bool, ms
 }
 
 func (o *oracle) hit(what, detail string, h []Op, i int) {
+	if len(o.hits) >= 3 { // one history: the first findings are enough (later ones are usually consequences)
+		return
+	}
 	o.hits = append(o.hits, map[string]interface{}{"what": what, "detail": detail, "ops": h[:i+1], "at": i})
 }
 
@@ -824,8 +869,30 @@ func runHistory(h []Op, withOracle bool) (trace [][]string, or *oracle, classes 
 				}
 			}
 		}
+		var beforeReopen []string
+		if withOracle && op.K == "reopen" {
+			for _, n := range richAddrs() {
+				beforeReopen = append(beforeReopen, e.delegationView(n))
+			}
+		}
 		ret, panicked, msg := e.exec(op)
 		executed = append(executed, op)
+		if withOracle && !panicked {
+			for k, n := range richAddrs() {
+				if ok, d := e.st.VerifC09DelegationsConsistent(addrOf(n)); !ok {
+					or.hit("an account's delegation list does not hash to its DelegationsHash", fmt.Sprintf("account %d after call %d: %s", n, i, d), h, i)
+					classes = append(classes, "delegation_list_INCONSISTENT")
+					break
+				}
+				if beforeReopen != nil && e.st.Exist(addrOf(n)) {
+					if now := e.delegationView(n); beforeReopen[k] != "absent" && now != beforeReopen[k] {
+						or.hit("an account's delegation list changed across Commit + reopen", fmt.Sprintf("account %d: %s  ->  %s", n, beforeReopen[k], now), h, i)
+						classes = append(classes, "delegation_list_CHANGED_BY_COMMIT")
+						break
+					}
+				}
+			}
+		}
 		if withOracle {
 			if c := or.step(e, h, i, op, ret, panicked, msg, pre, preDel); c != "" {
 				classes = append(classes, c)
@@ -1038,13 +1105,21 @@ func (g *gen) stakeTok() (string, string) {
 func (g *gen) validatorOp(findings bool) {
 	r := g.r
 	id := uVal[r.Intn(4)]
-	if g.dlg && r.Chance(35) {
-		// never take out more than the delegation holds (the staking handlers check the amount)
+	if g.dlg && r.Chance(10) {
+		g.emit(Op{K: "updvalinplace", A: id, B: uint64(r.Intn(5)), C: uint64(1 + r.Intn(9))})
+		return
+	}
+	if g.dlg && r.Chance(45) {
+		// never take out more than the delegation holds (the staking handlers check the amount);
+		// often the whole delegation (status Delete: the entry leaves both lists)
 		d := uint64(501 + r.Intn(3))
 		amount := int64(r.Intn(5) - 2)
-		if v := g.e.st.GetValidatorByMainAddr(valAddr(id)); v != nil && amount < 0 {
+		if v := g.e.st.GetValidatorByMainAddr(valAddr(id)); v != nil {
 			have := delegated(v, addrOf(d))
-			if -amount > have {
+			if have > 0 && r.Chance(40) {
+				amount = -have
+			}
+			if amount < 0 && -amount > have {
 				amount = -have
 			}
 		}
@@ -1237,6 +1312,93 @@ func (g *gen) storageBlock() {
 	}
 }
 
+// delegationBlock (modelled: account side through UpdateDelegator): accounts with 2-4 delegations made
+// in earlier finalised transactions (some committed by a previous block); then transactions whose
+// frames withdraw completely (delete) or partly at every position of the sorted list, add new
+// targets in front, in the middle and at the end, nested, mostly reverted; then Commit + reopen.
+func (g *gen) delegationBlock() {
+	r := g.r
+	accts := []uint64{1, 2, 4}
+	targets := []uint64{201, 202, 203, 204, 205}
+	for _, a := range accts {
+		g.emit(Op{K: "addbal", A: a, V: "50"})
+	}
+	build := func(a uint64) {
+		n := 2 + r.Intn(3)
+		perm := append([]uint64{}, targets...)
+		for i := range perm {
+			j := r.Intn(i + 1)
+			perm[i], perm[j] = perm[j], perm[i]
+		}
+		for _, t := range perm[:n] {
+			g.emit(Op{K: "upddlg", A: a, B: t, V: fmt.Sprint(1 + r.Intn(4))})
+		}
+	}
+	build(accts[0])
+	g.emit(Op{K: "finalise", Del: true})
+	if r.Chance(60) {
+		g.emit(Op{K: "reopen", Del: true})
+	}
+	build(accts[1])
+	g.emit(Op{K: "finalise", Del: true})
+	build(accts[2])
+	g.emit(Op{K: "finalise", Del: true})
+	change := func() {
+		a := accts[r.Intn(len(accts))]
+		bal, list, ok := g.e.st.VerifC09Delegations(addrOf(a))
+		if !ok {
+			return
+		}
+		have := bal.Int64()
+		switch {
+		case len(list) > 0 && r.Chance(55): // withdraw, completely or partly, at a chosen position
+			t := list[r.Intn(len(list))].Big().Uint64()
+			amt := int64(0)
+			if have > 0 {
+				amt = 1 + int64(r.Intn(int(have)))
+			}
+			g.emit(Op{K: "upddlg", A: a, B: t, V: fmt.Sprint(-amt), Del: r.Chance(65)})
+		default: // delegate to a (possibly new) target
+			g.emit(Op{K: "upddlg", A: a, B: targets[r.Intn(len(targets))], V: fmt.Sprint(1 + r.Intn(3))})
+		}
+	}
+	var frame func(depth int)
+	frame = func(depth int) {
+		if g.dead {
+			return
+		}
+		g.emit(Op{K: "snapshot"})
+		my := int64(-1)
+		if len(g.stack) > 0 {
+			my = g.stack[len(g.stack)-1]
+		}
+		for i, n := 0, 1+r.Intn(3); i < n; i++ {
+			if depth < 3 && r.Chance(25) {
+				frame(depth + 1)
+			} else {
+				change()
+			}
+		}
+		if r.Chance(65) && my >= 0 {
+			g.emit(Op{K: "revert", A: uint64(my)})
+		}
+	}
+	for t, txs := 0, 2+r.Intn(4); t < txs && !g.dead; t++ {
+		g.emit(Op{K: "prepare", A: uTh[r.Intn(3)], B: uint64(t)})
+		g.emit(Op{K: "snapshot"})
+		if r.Bool() {
+			change()
+		}
+		for i, n := 0, 1+r.Intn(2); i < n; i++ {
+			frame(1)
+		}
+		g.emit(Op{K: "finalise", Del: true})
+		if r.Chance(20) {
+			g.emit(Op{K: "reopen", Del: true})
+		}
+	}
+}
+
 func genHistory(r *vf.Rng, style int, dlg bool) []Op {
 	g := &gen{r: r, e: newEnv(), dlg: dlg}
 	findings := r.Chance(12)
@@ -1244,12 +1406,18 @@ func genHistory(r *vf.Rng, style int, dlg bool) []Op {
 	if dlg {
 		valShare = 60
 		// validators with some delegations, finalised, so that later calls update or remove existing entries
-		for id := uint64(1); id <= 2; id++ {
+		for _, d := range uDlg {
+			g.emit(Op{K: "addbal", A: d, V: "100"}) // the delegator accounts exist
+		}
+		for id := uint64(1); id <= 4; id++ {
 			g.emit(Op{K: "createval", A: id, B: uint64(1 + r.Intn(3)), C: 1, V: "10", W: "1000"})
-			for d := uint64(501); d <= 503; d++ {
+			for _, d := range uDlg {
 				if r.Chance(70) {
 					g.emit(Op{K: "upddelegation", A: id, B: d, V: fmt.Sprint(1 + r.Intn(3))})
 				}
+			}
+			if id == 2 && r.Bool() {
+				g.emit(Op{K: "reopen", Del: true, Lazy: r.Bool()}) // some delegations come from a committed block
 			}
 		}
 		g.emit(Op{K: "finalise", Del: true})
@@ -1283,6 +1451,8 @@ func genHistory(r *vf.Rng, style int, dlg bool) []Op {
 		}
 	case 2:
 		g.storageBlock()
+	case 3:
+		g.delegationBlock()
 	default: // op soup
 		n := 4 + r.Heavy(120)
 		for i := 0; i < n && !g.dead; i++ {
@@ -1552,7 +1722,7 @@ func valid(h []Op) bool {
 
 func implOnly(h []Op) bool {
 	for _, o := range h {
-		if o.K == "upddelegation" || o.Lazy {
+		if o.K == "upddelegation" || o.K == "updvalinplace" || o.Lazy {
 			return true
 		}
 	}
@@ -1675,10 +1845,12 @@ func doGen(seed uint64, n int, outDir, corpusDir, tier string) {
 	for count < n {
 		style := 0
 		switch x := r.Intn(100); {
-		case x < 30:
+		case x < 25:
 			style = 1
-		case x < 55:
+		case x < 45:
 			style = 2
+		case x < 62:
+			style = 3
 		}
 		add(History{Ops: genHistory(r, style, false)})
 	}
